@@ -166,7 +166,8 @@ class Gen(object):
         if k == "tern":
             return ("tern", self.e_bool(d + 1), self.e_str(d + 1), self.e_str(d + 1))
         if k == "typeof":
-            return ("call", "typeof", [self.e_any(d + 1)])
+            # not of a boolean: the name typeof gives booleans (bool/boolean) is not pinned, and here the name flows into further computation
+            return ("call", "typeof", [self.e_any(d + 1, nobool=True)])
         if k == "joink":
             return ("call", "joink", [self.e_map(d + 1), ("str", ",")])
         if k == "json":
@@ -296,11 +297,15 @@ class Gen(object):
             outer.append((("str", kk), ("maplit", inner)))
         return ("maplit", outer)
 
-    def e_any(self, d):
+    def e_any(self, d, nobool=False):
         opts = ["int", "str", "bool", "map", "arr", "stale", "stale"]
+        if nobool:
+            opts = ["int", "str", "map", "arr", "nosuchlocal"]
         if self.in_main:
             opts += ["maybe", "maybe", "nosuch"]
         k = self.pick(opts)
+        if k == "nosuchlocal":
+            return ("local", "zz")
         if k == "stale":
             # a name that may or may not be in scope here: out of scope reads are absent
             names = sorted(self.seen_names) or ["zz"]
